@@ -25,10 +25,12 @@ For each of eyecite.clean.inline_whitespace / all_whitespace / underscores:
       `others_kept_in_order`  deleting the class characters from f(s) and from s
                               gives the same string; underscores additionally:
                               f(s) is a subsequence of s
-      `erasure_equality`      (underscores) f(s) == s with every maximal run of
-                              two or more '_' erased (itertools.groupby reading,
-                              independent of the recursive model) -- this is the
-                              clause that sees a single '_' being dropped
+      `erasure_equality`      f(s) == s with every maximal class run (underscores:
+                              of two or more '_') replaced by ' ' (underscores:
+                              erased) -- itertools.groupby reading, independent
+                              of the recursive model; this is the clause that
+                              sees a single '_' being dropped or whitespace
+                              being deleted instead of collapsed
 
 Domain (the `bound` field): ALL strings of length <= L over a 4-letter alphabet
 per cleaner (L = 8 quick, 10 thorough), plus seeded random run-structured
@@ -131,9 +133,10 @@ def is_subsequence(a: str, b: str) -> bool:
     return all(ch in it for ch in a)
 
 
-def erase_runs(s: str, p: Callable[[str], bool], n: int) -> str:
-    return "".join("".join(g) for k, grp in itertools.groupby(s, key=p)
-                   for g in [list(grp)] if not (k and len(g) >= n))
+def rewrite_runs(s: str, p: Callable[[str], bool], n: int, r: List[str]) -> str:
+    """s with every maximal p-run of length >= n replaced by r (itertools.groupby reading)."""
+    return "".join("".join(r) if (k and len(g) >= n) else "".join(g)
+                   for k, grp in itertools.groupby(s, key=p) for g in [list(grp)])
 
 
 def check_one(name: str, f: Callable[[str], str], s: str, report: Callable[..., None]) -> None:
@@ -157,10 +160,9 @@ def check_one(name: str, f: Callable[[str], str], s: str, report: Callable[..., 
         report(name, "others_kept_in_order", s, kept_out, kept_in)
     elif kind == "del" and not is_subsequence(out, s):
         report(name, "others_kept_in_order", s, out, "a subsequence of the input")
-    if kind == "del":
-        er = erase_runs(s, p, n)
-        if out != er:
-            report(name, "erasure_equality", s, out, er)
+    er = rewrite_runs(s, p, n, r)
+    if out != er:
+        report(name, "erasure_equality", s, out, er)
 
 
 # ------------------------------------------------------------------------------------------
@@ -190,7 +192,7 @@ def random_strings(rng: random.Random, count: int, extra: List[str]):
         yield "".join(parts)
 
 
-def load_cleaners(clean_path: Optional[str]) -> Dict[str, Callable[[str], str]]:
+def load_cleaners(clean_path: Optional[str]):
     if clean_path:
         spec = importlib.util.spec_from_file_location("_c20_clean_under_test", clean_path)
         mod = importlib.util.module_from_spec(spec)      # type: ignore[arg-type]
